@@ -40,6 +40,10 @@ def run(ctx):
     sums = []
     pool = ThreadPoolExecutor(max_workers=6 if q else 12)
     exhaustive = []
+    import threading
+    cold = ctx.scratch / "cold"            # vectors for the cold-start stage, filled by the g_* jobs
+    cold.mkdir()
+    ready = {k: threading.Event() for k in ("hostport", "duration", "url", "prefix")}
 
     def vh_collect(args, tag):
         out = ctx.scratch / (tag + ".res")
@@ -170,6 +174,8 @@ def run(ctx):
                   invariants=["Emit"] + DUR_INV)
         tlc_locked(ctx, dd, "DurationGen", "DurGen_run.cfg", workers=2, label="duration-gen")
         exhaustive.append(count_lines(dd / "duration_vectors.ndjson"))
+        shutil.copy(dd / "duration_vectors.ndjson", cold / "duration_vectors.ndjson")
+        ready["duration"].set()
         vh_collect(["c14", "replay-duration", dd / "duration_vectors.ndjson"], "dur")
 
     def g_hostport():
@@ -183,12 +189,24 @@ def run(ctx):
                   invariants=["Emit", "RoundTrip", "JoinParses"])
         tlc_locked(ctx, dd, "HostPortGen", "HpGen_run.cfg", workers=4, label="hostport-gen")
         exhaustive.append(count_lines(dd / "hostport_vectors.ndjson"))
+        # every well-known port (0..1023) and its neighbours x the shortest hosts
+        pd = subdir("g_hpp", ["HostPort.tla", "HostPortGen.tla"])
+        write_cfg(pd / "HpPorts_run.cfg", "Spec", {"HostChars": "<- GenHostChars", "Ports": "<- WellKnownPorts",
+                                                    "MaxHost": 1 if q else 2},
+                  invariants=["Emit", "RoundTrip", "JoinParses"])
+        tlc_locked(ctx, pd, "HostPortGen", "HpPorts_run.cfg", workers=4, label="hostport-gen-wellknown-ports")
+        exhaustive.append(count_lines(pd / "hostport_vectors.ndjson"))
+        shutil.copy(pd / "hostport_vectors.ndjson", cold / "hostport_ports_vectors.ndjson")
+        ready["hostport"].set()
         vh_collect(["c14", "replay-hostport", dd / "hostport_vectors.ndjson"], "hp")
+        vh_collect(["c14", "replay-hostport", pd / "hostport_vectors.ndjson"], "hpp")
 
     def g_prefix():
         dd = subdir("g_pfx", ["PrefixText.tla", "PrefixGen.tla", "PrefixGen.cfg"])
         tlc_locked(ctx, dd, "PrefixGen", "PrefixGen.cfg", workers=1, label="prefix-gen")
         exhaustive.append(count_lines(dd / "prefix_vectors.ndjson"))
+        shutil.copy(dd / "prefix_vectors.ndjson", cold / "prefix_vectors.ndjson")
+        ready["prefix"].set()
         vh_collect(["c14", "replay-prefix", dd / "prefix_vectors.ndjson"], "pfx")
 
     def g_url():
@@ -197,8 +215,46 @@ def run(ctx):
         # write_cfg emits an empty CONSTANTS section; TLC accepts it
         tlc_locked(ctx, dd, "UrlGen", "UrlGen_run.cfg", workers=6, label="url-gen")
         exhaustive.append(count_lines(dd / "url_vectors.ndjson"))
+        shutil.copy(dd / "url_vectors.ndjson", cold / "url_vectors.ndjson")
+        ready["url"].set()
         vh_collect(["c14", "replay-url", dd / "url_vectors.ndjson"], "url")
 
+    # Cold start: lazily initialised package state has a first-use window that exists once per process.  FRESH
+    # processes (plain and -race) in which the very first calls of the functions under test are made by N goroutines
+    # released by one barrier; every result compared with the specification's vectors.
+    def cold_job():
+        for k, ev in ready.items():
+            if not ev.wait(1500):
+                raise CheckerError("cold-start stage: vectors for %s never became ready" % k)
+        plan = [("hostport", 24, 8), ("mixed", 10, 4), ("parse", 6, 2), ("duration", 6, 2), ("url", 6, 2), ("prefix", 4, 2)]
+        mul = 1 if q else 4
+        tot = {"cold_calls": 0, "processes": 0}
+        ctx.build_vh(race=True)
+
+        def one(n, scenario, use_race, i):
+            out = ctx.scratch / ("cold_%d.res" % n)
+            ctx.vh(["c14", "coldstart", out, scenario, 16 if i % 2 == 0 else 6, 48, cold], race=use_race, timeout=300,
+                   fatal_key="cold start of " + scenario)
+            if not out.exists():
+                return
+            s = ctx.collect(out)
+            with _lock:
+                tot["cold_calls"] += s["cold_calls"]
+                tot["processes"] += 1
+
+        jobs, n = [], 0
+        for scenario, plain, race in plan:
+            for use_race, reps in ((False, plain * mul), (True, race * mul)):
+                for i in range(reps):
+                    n += 1
+                    jobs.append((n, scenario, use_race, i))
+        with ThreadPoolExecutor(max_workers=3) as cp:      # a few processes side by side; each is its own cold start
+            for f in [cp.submit(one, *j) for j in jobs]:
+                f.result()
+        with _lock:
+            sums.append({"evaluations": tot["cold_calls"], "cold_calls": tot["cold_calls"], "cold_processes": tot["processes"]})
+
+    bg.go(cold_job)
     bg.go(values_job)
     bg.go(g_duration)
     bg.go(g_hostport)
@@ -220,6 +276,8 @@ def run(ctx):
     ctx.extra["model_diffs"] = sum(s.get("model_diffs", 0) for s in sums)
     ctx.extra["retained_results_reverified"] = sum(s.get("retained_results", 0) for s in sums)
     ctx.extra["stress_calls"] = sum(s.get("stress_calls", 0) for s in sums)
+    ctx.extra["cold_start_processes"] = sum(s.get("cold_processes", 0) for s in sums)
+    ctx.extra["cold_start_calls"] = sum(s.get("cold_calls", 0) for s in sums)
     golibs, other = ctx.race_reports()
     if other and not golibs:
         raise CheckerError("race detector reported a race in the harness only:\n" + other[0][:3000])
